@@ -291,14 +291,20 @@ class QubitHamiltonian(QubitOperator):
         # Raise error if attributes are not the same across Hamiltonians. This
         # check is ignored if comparing to a QubitOperator or a bare
         # QubitHamiltonian.
+        other_mapping = getattr(other_hamiltonian, "mapping", None)
+        other_up_then_down = getattr(other_hamiltonian, "up_then_down", None)
         if self.mapping is not None and self.up_then_down is not None and \
-                                other_hamiltonian.mapping is not None and \
-                                other_hamiltonian.up_then_down is not None:
+                                other_mapping is not None and \
+                                other_up_then_down is not None:
 
-            if self.mapping.upper() != other_hamiltonian.mapping.upper():
+            if self.mapping.upper() != other_mapping.upper():
                 raise RuntimeError("Mapping must be the same for all QubitHamiltonians.")
-            elif self.up_then_down != other_hamiltonian.up_then_down:
+            elif self.up_then_down != other_up_then_down:
                 raise RuntimeError("Spin ordering must be the same for all QubitHamiltonians.")
+
+        # A plain QubitOperator carries no mapping information: add its terms as a bare QubitHamiltonian
+        if isinstance(other_hamiltonian, of.QubitOperator) and not isinstance(other_hamiltonian, QubitHamiltonian):
+            other_hamiltonian = qubitop_to_qubitham(other_hamiltonian, None, None)
 
         return super(QubitOperator, self).__iadd__(other_hamiltonian)
 
@@ -306,10 +312,12 @@ class QubitHamiltonian(QubitOperator):
 
         # Additional checks for == operator. This check is ignored if comparing
         # to a QubitOperator or a bare QubitHamiltonian.
+        other_mapping = getattr(other_hamiltonian, "mapping", None)
+        other_up_then_down = getattr(other_hamiltonian, "up_then_down", None)
         if self.mapping is not None and self.up_then_down is not None and \
-                                other_hamiltonian.mapping is not None and \
-                                other_hamiltonian.up_then_down is not None:
-            if (self.mapping.upper() != other_hamiltonian.mapping.upper()) or (self.up_then_down != other_hamiltonian.up_then_down):
+                                other_mapping is not None and \
+                                other_up_then_down is not None:
+            if (self.mapping.upper() != other_mapping.upper()) or (self.up_then_down != other_up_then_down):
                 return False
 
         return super(QubitOperator, self).__eq__(other_hamiltonian)
